@@ -28,7 +28,15 @@
  *      handle around 2^16; 65540 two-word registers), windows starting and
  *      ending around every area edge and around handle/address 2^16, lengths
  *      straddling 2^16.  Callback-backed areas compute their words and need no
- *      storage.
+ *      storage.  A table that register_init refuses (a library with a narrower
+ *      handle type) is not judged: cap, run not exhaustive.
+ *  P5  a reduced family at address shifts 0x7ffffffc / 0xfffffff5.
+ *  P6  zero-sized areas (they map no address): layouts A..D with one or two
+ *      areas of no words inserted at every list position and every base that
+ *      keeps the list ascending and non-overlapping (on a boundary between two
+ *      adjacent areas, at both ends of and inside a gap, in front of the first
+ *      area, at and above the end of the last), memory- and callback-backed,
+ *      four register lists, every window x the three operations.
  */
 #include "mc.h"
 #include "regfam.h"
@@ -42,6 +50,19 @@ acc(RegisterAccessCode c)
 {
     static const char *n[] = { "SUCCESS", "FAILURE", "UNINITIALISED", "NOENTRY", "RANGE", "INVALID", "READONLY", "IO_ERROR" };
     return (unsigned)c < 8 ? n[c] : "?";
+}
+
+/* a table of the space that register_init refuses is not judged (the statement
+ * is about initialised tables); the run is then not exhaustive.  One cap per
+ * process and kind. */
+static void
+note_init_refused(int large)
+{
+    static char seen[2];
+    if (seen[large])
+        return;
+    seen[large] = 1;
+    mc_cap("register_init refused %s of the space (not judged: C03 speaks about initialised tables)", large ? "a large table" : "a small-scope table");
 }
 
 /* ---- iteration callback ---- */
@@ -67,6 +88,7 @@ iter_cb(RegisterTable *t, RegisterHandle h, void *arg)
 /* areas of the table under construction that get no read function at all (only
  * set for areas that are not flagged readable) */
 static bool g_noread[RT_MAXA];
+static bool g_has_empty; /* the table under construction belongs to the zero-sized-area family */
 
 #ifdef C03_HYBRID_AREAS
 /* OFF by default (see checks.d/C03.py, assumptions): areas with a custom read
@@ -212,8 +234,11 @@ do_iter(uint32_t addr, uint32_t len)
                 mc_fail("C03/iter-passes-argument", "callback did not receive the caller's argument");
                 ok = false;
             } else if (k >= 0 && res < 0) {
-                if (a.code != REG_ACCESS_FAILURE || a.address != s->r[expect[k]].addr) {
-                    mc_fail("C03/iter-negative-is-failure", "negative result at register %d: %s@%u, expected FAILURE@%u",
+                /* "negative meaning failure at that register's address": the
+                 * statement fixes the address, not the enum value -- any code
+                 * other than success is a report of failure */
+                if (a.code == REG_ACCESS_SUCCESS || a.address != s->r[expect[k]].addr) {
+                    mc_fail("C03/iter-negative-is-failure", "negative result at register %d: %s@%u, expected a failure code at address %u",
                             expect[k], acc(a.code), a.address, s->r[expect[k]].addr);
                     ok = false;
                 }
@@ -293,8 +318,11 @@ run_table(const struct tspec *s, int ti)
 #endif
                     }
                     if (!init_ok) {
-                        mc_fail("C03/setup-init", "register_init of a well-formed table failed");
-                        mc_end(false, "init-failed");
+                        /* the statement speaks about initialised tables only;
+                         * which tables register_init accepts is C04's business.
+                         * Not judged, recorded as a cap (run not exhaustive). */
+                        note_init_refused(0);
+                        mc_end(false, "init-refused");
                         continue;
                     }
                     const char *o = mode == 1 ? do_iter(addr, n) : do_read(addr, n, mode == 2 ? k : -1);
@@ -302,6 +330,10 @@ run_table(const struct tspec *s, int ti)
                         for (uint32_t w = 0; w < n; ++w)
                             if (g_noread[flat_area_of(s, addr + w)])
                                 o = "read-ok-no-read-function";
+                    if (g_has_empty && !strcmp(o, "read-ok"))
+                        for (int i = 0; i < s->na; ++i)
+                            if (s->a[i].size == 0 && addr < s->a[i].base && s->a[i].base - addr < n)
+                                o = "read-ok-across-empty-area";
                     mc_end(true, o);
                 }
             }
@@ -387,6 +419,61 @@ hfam_enumerate(fam_fn fn, int idx)
     return idx;
 }
 #endif
+
+/* P6: zero-sized areas */
+
+static int
+zfam_enumerate(fam_fn fn, int idx)
+{
+    static const int RW4[4] = { 0, 0, 0, 0 };
+    struct tspec s;
+    g_has_empty = true;
+    for (int li = 0; li < NLAYOUTS; ++li) {
+        const struct layout *l = &LAYOUTS[li];
+        for (int p = 0; p <= l->na; ++p) {
+            /* bases that keep the list ascending and non-overlapping */
+            const uint32_t lo = p == 0 ? l->base[0] : l->base[p - 1] + l->size[p - 1];
+            const uint32_t hi = p == l->na ? lo + 1 : l->base[p];
+            for (uint32_t zb = lo; zb <= hi; ++zb)
+                for (int nz = 1; nz <= 2 && l->na + nz <= RT_MAXA; ++nz)
+                    for (int backing = 0; backing < 2; ++backing)
+                        for (int list = 0; list < 4; ++list) {
+                            memset(&s, 0, sizeof s);
+                            s.be = (list & 1);
+                            fam_shift = 0;
+                            struct tspec plain;
+                            memset(&plain, 0, sizeof plain);
+                            fam_areas(&plain, l, RW4, backing);
+                            for (int i = 0; i < p; ++i)
+                                s.a[s.na++] = plain.a[i];
+                            for (int z = 0; z < nz; ++z) {
+                                s.a[s.na] = plain.a[0];
+                                s.a[s.na].base = zb;
+                                s.a[s.na].size = 0;
+                                s.na++;
+                            }
+                            for (int i = p; i < l->na; ++i)
+                                s.a[s.na++] = plain.a[i];
+                            /* lists: none | u16 at the first word of every area |
+                             * u16 at every word | u32 at the base of every area */
+                            for (int i = 0; i < l->na && list > 0; ++i)
+                                for (uint32_t w = 0; w < l->size[i]; ++w) {
+                                    if (list != 2 && w > 0)
+                                        break;
+                                    if (s.nr >= RT_MAXR)
+                                        mc_broken("zero-sized-area family: register list exceeds RT_MAXR");
+                                    s.r[s.nr].type = list == 3 ? REG_TYPE_UINT32 : REG_TYPE_UINT16;
+                                    s.r[s.nr].addr = l->base[i] + w;
+                                    fam_constrain(&s.r[s.nr], K_NONE);
+                                    s.nr++;
+                                }
+                            fn(&s, idx++);
+                        }
+        }
+    }
+    g_has_empty = false;
+    return idx;
+}
 
 /* P5: a reduced family moved to the top half / the top of the 32-bit address
  * space (regfam's own shifted tables straddle 2^16): every window ends at or
@@ -865,8 +952,8 @@ big_iter(uint32_t addr, uint32_t len)
             return "failed";
         }
         if (k >= 0 && res < 0) {
-            if (a.code != REG_ACCESS_FAILURE || a.address != bg.raddr[h0 + (uint32_t)k]) {
-                mc_fail("C03/iter-negative-is-failure", "negative result at register %u: %s@%u, expected FAILURE@%u", h0 + (uint32_t)k,
+            if (a.code == REG_ACCESS_SUCCESS || a.address != bg.raddr[h0 + (uint32_t)k]) {
+                mc_fail("C03/iter-negative-is-failure", "negative result at register %u: %s@%u, expected a failure code at address %u", h0 + (uint32_t)k,
                         acc(a.code), a.address, bg.raddr[h0 + (uint32_t)k]);
                 return "failed";
             }
@@ -990,7 +1077,10 @@ run_big(int shape, uint32_t N, bool cb)
                 if (!bg.built)
                     big_build(shape, N);
                 if (!bg.init_ok) {
-                    /* not C03's business (C04); the vacuity guard requires the big-* classes */
+                    /* not C03's business (C04): a library whose handle type is
+                     * narrower refuses these tables as too large.  Not judged,
+                     * recorded as a cap; the big-* classes are not required. */
+                    note_init_refused(1);
                     mc_end(false, "big-init-refused");
                     continue;
                 }
@@ -1014,6 +1104,10 @@ run_bigs(bool thorough)
             nt++;
         }
     }
+    /* one table below 2^16 entries: what a library with 16-bit handles still
+     * accepts (the tables above are refused by it and then not judged) */
+    run_big(0, 65534, true);
+    nt++;
     /* shape 1: the second area's first handle straddling 2^16 */
     static const uint32_t N1[] = { 65536, 65535, 65537, 65533, 65534 };
     for (int i = 0; i < (thorough ? 5 : 2); ++i) {
@@ -1041,18 +1135,21 @@ main(int argc, char **argv)
     const int nx = ntab - nfam;
     ntab = sfam_enumerate(run_table, ntab, th);
     const int nshift = ntab - nfam - nx;
+    ntab = zfam_enumerate(run_table, ntab);
+    const int nzero = ntab - nfam - nx - nshift;
+    MC_ANCHOR(nzero > 0, "the zero-sized-area family is empty");
 #ifdef C03_HYBRID_AREAS
     ntab = hfam_enumerate(run_table, ntab);
 #endif
     run_histories(th);
     const int nbig = run_bigs(th);
-    char bound[800];
+    char bound[1000];
     snprintf(bound, sizeof bound,
-             "%d family tables + %d tables of 3/4 adjacent areas + %d tables at address shifts 0x7ffffffc/0xfffffff5 x every (address,length) over 10 addresses x "
+             "%d family tables + %d tables of 3/4 adjacent areas + %d tables at address shifts 0x7ffffffc/0xfffffff5 + %d tables with one or two zero-sized areas at every list position and admissible base x every (address,length) over 10 addresses x "
              "{block read, iteration with every stop script (results +-1 at every position; +-2, +-256, +-65536, INT_MIN/MAX at the first and last position), "
              "block read with a read-callback fault at every chunk position}; %lld re-initialisation histories (ordered pairs%s of register lists on one area array) "
-             "x every window x {block read, iteration}; %d tables of 65535..65544 registers x windows around 2^16 and the area edges",
-             nfam, nx, nshift, (long long)hist_count, th ? " and triples" : "", nbig);
+             "x every window x {block read, iteration}; %d tables of 65534..65544 registers x windows around 2^16 and the area edges",
+             nfam, nx, nshift, nzero, (long long)hist_count, th ? " and triples" : "", nbig);
     mc_finish(true, bound);
     return 0;
 }
